@@ -52,3 +52,11 @@ lib.MODULE_CONSTS['http.client.UNAUTHORIZED'] = VInt(401)
 for _k, _v in (('normal', 1), ('redirect', 2), ('robots', 3), ('authentication', 4)):
     lib.MODULE_CONSTS['LoopType.' + _k] = VInt(_v)
 lib.MODULES.add('LoopType')
+
+Assumed('wpull/protocol/http/request.py', 'Response.__init__', {'self': TObj('HTTPResponse'), 'status_code': TOpt(TInt()), 'reason': TOpt(TStr()), 'version': TStr(), 'request': TAny()},
+        name='HTTPResponse.__init__', defaults={'status_code': None, 'reason': None, 'version': 'HTTP/1.1', 'request': None},
+        modifies=['self.status_code', 'self.reason', 'self.version', 'self.fields', 'self.request', 'self.body'],
+        ensures=['self.status_code == status_code'], raises={}, note='plain attribute assignments plus a fresh NameValueRecord')
+Assumed('wpull/namevalue.py', 'NameValueRecord.parse', {'self': TObj('NameValueRecord'), 'string': TBytes(), 'strict': TBool()}, defaults={'strict': True},
+        modifies=['self.map', 'self.count'], raises={'ValueError': ['strict']}, note='malformed field lines are skipped unless strict (then ValueError); verified under C09')
+lib.MODULE_CONSTS['Response'] = VFunc('class', 'HTTPResponse')
